@@ -29,6 +29,36 @@ type recNode struct {
 	h          *regHarness
 	closes     int
 	reopens    int
+	wrapped    bool // registered inside a wrapRec: the registered node is the wrapper
+}
+
+// wrapRec: a registered node that decorates another one and says so (NodeUnwrapper). It is no Closer:
+// closing it closes the node inside. Its Reopen is its own business (it does not reopen the inner node).
+type wrapRec struct{ inner *recNode }
+
+func (w *wrapRec) Process(ctx context.Context, e *eventlogger.Event) (*eventlogger.Event, error) {
+	return w.inner.Process(ctx, e)
+}
+func (w *wrapRec) Type() eventlogger.NodeType { return w.inner.ty }
+func (w *wrapRec) Unwrap() eventlogger.Node   { return w.inner }
+func (w *wrapRec) Reopen() error {
+	n := w.inner
+	n.h.mu.Lock()
+	n.reopens++
+	n.h.reopenCalls = append(n.h.reopenCalls, n.inst)
+	fail := n.h.failInst != 0 && n.h.failInst == n.inst
+	n.h.mu.Unlock()
+	if fail {
+		return instErr{n.inst}
+	}
+	return nil
+}
+
+func asRec(n eventlogger.Node) *recNode {
+	if w, ok := n.(*wrapRec); ok {
+		return w.inner
+	}
+	return n.(*recNode)
 }
 
 type marker struct{ inst int }
@@ -68,6 +98,9 @@ func (n *recNode) Process(ctx context.Context, e *eventlogger.Event) (*eventlogg
 }
 func (n *recNode) Reopen() error {
 	n.h.mu.Lock()
+	if n.wrapped {
+		n.h.oracle("C20 Reopen was called on the node inside a registered wrapper node (instance %d), not on the registered node itself", n.inst)
+	}
 	n.reopens++
 	n.h.reopenCalls = append(n.h.reopenCalls, n.inst)
 	fail := n.h.failInst != 0 && n.h.failInst == n.inst
@@ -128,8 +161,8 @@ type regHarness struct {
 	caseOps     []string
 
 	rpanSiblings []int // during rpan: the pipeline's node ids that no OTHER pipeline lists
-	divergedBy map[string]bool
-	diverged bool // an oracle failed in this case: the spec state may no longer match, skip to the next case
+	divergedBy   map[string]bool
+	diverged     bool // an oracle failed in this case: the spec state may no longer match, skip to the next case
 
 	nodes  map[int]*specNode
 	pipes  map[[2]int]*specPipe
@@ -194,21 +227,50 @@ func parseName(s string) int {
 }
 
 func polOpt(pol string, node bool) []eventlogger.Option {
-	var p eventlogger.RegistrationPolicy
-	switch pol {
-	case "dflt":
+	if pol == "dflt" {
 		return nil
-	case "allow":
-		p = eventlogger.AllowOverwrite
-	case "deny":
-		p = eventlogger.DenyOverwrite
-	default:
-		p = "Bogus"
 	}
-	if node {
-		return []eventlogger.Option{eventlogger.WithNodeRegistrationPolicy(p)}
+	var out []eventlogger.Option
+	for _, tok := range strings.Split(pol, "+") {
+		if tok == "nil" {
+			out = append(out, nil)
+			continue
+		}
+		own := !strings.HasPrefix(tok, "x")
+		var p eventlogger.RegistrationPolicy
+		switch strings.TrimPrefix(tok, "x") {
+		case "allow":
+			p = eventlogger.AllowOverwrite
+		case "deny":
+			p = eventlogger.DenyOverwrite
+		default:
+			p = "Bogus"
+		}
+		if own == node {
+			out = append(out, eventlogger.WithNodeRegistrationPolicy(p))
+		} else {
+			out = append(out, eventlogger.WithPipelineRegistrationPolicy(p))
+		}
 	}
-	return []eventlogger.Option{eventlogger.WithPipelineRegistrationPolicy(p)}
+	return out
+}
+
+// effPol: what an option list asks for, from the statement of C07: any invalid policy value makes
+// the call invalid; otherwise the last policy given for the call's own kind counts.
+func effPol(pol string) string {
+	if pol == "dflt" {
+		return "dflt"
+	}
+	eff := "dflt"
+	for _, tok := range strings.Split(pol, "+") {
+		switch tok {
+		case "invalid", "xinvalid":
+			return "invalid"
+		case "allow", "deny":
+			eff = tok
+		}
+	}
+	return eff
 }
 
 // classify maps the library's error texts to the model's small enum.
@@ -287,7 +349,7 @@ func (h *regHarness) dumpLine() string {
 	sort.Ints(ids)
 	for _, i := range ids {
 		n := byID[i]
-		ns = append(ns, fmt.Sprintf("%d/%d/%d/%s", i, n.Node.(*recNode).inst, n.ReferenceCount, bstr(n.Policy == eventlogger.DenyOverwrite)))
+		ns = append(ns, fmt.Sprintf("%d/%d/%d/%s", i, asRec(n.Node).inst, n.ReferenceCount, bstr(n.Policy == eventlogger.DenyOverwrite)))
 	}
 	type pk struct{ t, p int }
 	var pks []pk
@@ -354,7 +416,7 @@ func (h *regHarness) checkInvariants() {
 	}
 	for i, sn := range h.nodes {
 		n, ok := nodes[nid(i)]
-		if !ok || n.Node.(*recNode) != sn.n {
+		if !ok || asRec(n.Node) != sn.n {
 			h.oracle("C07 node %d: registered instance differs from spec", i)
 		}
 	}
@@ -373,7 +435,7 @@ func (h *regHarness) checkInvariants() {
 				continue
 			}
 			for i := range vp.Nodes {
-				if vp.Nodes[i].(*recNode) != sp.insts[i] || parseName(string(vp.NodeIDs[i])) != sp.ids[i] {
+				if asRec(vp.Nodes[i]) != sp.insts[i] || parseName(string(vp.NodeIDs[i])) != sp.ids[i] {
 					h.oracle("C01/C07 pipeline %s/%s node %d bound to a different instance/id than at registration", t, p, i)
 				}
 			}
@@ -432,7 +494,7 @@ func (h *regHarness) specAccept(ty, pid int, ids []int, pol string) bool {
 	if old, ok := h.pipes[[2]int{ty, pid}]; ok && old.deny {
 		return false
 	}
-	return pol != "invalid"
+	return effPol(pol) != "invalid"
 }
 
 func (h *regHarness) exec(line string) string {
@@ -451,18 +513,24 @@ func (h *regHarness) exec(line string) string {
 		id, ty, beh, cf, pol := atoi(f[1]), atoi(f[2]), f[3], f[4] == "1", f[5]
 		n := &recNode{inst: h.nextInst, ty: eventlogger.NodeType(ty), beh: beh, closeFails: cf, h: h}
 		before := h.observable()
-		err := h.b.RegisterNode(nid(id), n, polOpt(pol, true)...)
+		var reg eventlogger.Node = n
+		if h.nextInst%4 == 3 {
+			// every fourth instance is registered inside a wrapper (decided by the history alone, so a replay agrees)
+			n.wrapped = true
+			reg = &wrapRec{inner: n}
+		}
+		err := h.b.RegisterNode(nid(id), reg, polOpt(pol, true)...)
 		r := classify(err)
 		h.st.hit("regnode:" + r)
 		// oracle C07/C05
 		old, exists := h.nodes[id]
-		want := id != 0 && pol != "invalid" && !(exists && old.deny)
+		want := id != 0 && effPol(pol) != "invalid" && !(exists && old.deny)
 		if want != (err == nil) {
 			h.oracle("C07 RegisterNode(%d,%s) returned %v, statement says success=%v", id, pol, err, want)
 		}
 		if err == nil {
 			h.nextInst++
-			h.nodes[id] = &specNode{n: n, deny: pol == "deny"}
+			h.nodes[id] = &specNode{n: n, deny: effPol(pol) == "deny"}
 			return "ok"
 		}
 		if h.observable() != before {
@@ -527,7 +595,7 @@ func (h *regHarness) exec(line string) string {
 			}
 		}
 		if err == nil {
-			sp := &specPipe{ids: ids, deny: pol == "deny"}
+			sp := &specPipe{ids: ids, deny: effPol(pol) == "deny"}
 			for _, id := range ids {
 				sp.insts = append(sp.insts, h.nodes[id].n)
 			}
@@ -800,6 +868,7 @@ func (h *regHarness) exec(line string) string {
 
 var regBehs = []string{"pass", "pass", "replace", "drop", "err", "errev"}
 var regPols = []string{"dflt", "dflt", "allow", "deny"}
+var regPolToks = []string{"allow", "deny", "allow", "deny", "invalid", "xallow", "xdeny", "xinvalid", "nil"}
 
 func genRegistryCase(p *prng, malformed bool, maxLen int) []string {
 	ops := []string{"reset"}
@@ -836,6 +905,15 @@ func genRegistryCase(p *prng, malformed bool, maxLen int) []string {
 		pol := func() string {
 			if malformed && p.chance(1, 5) {
 				return "invalid"
+			}
+			if p.chance(1, 7) {
+				// several options in one call: each is applied in order
+				n := 2 + p.intn(2)
+				toks := make([]string, n)
+				for i := range toks {
+					toks[i] = pick(p, regPolToks)
+				}
+				return strings.Join(toks, "+")
 			}
 			return pick(p, regPols)
 		}
